@@ -549,7 +549,7 @@ def dispatchOp (line : String) : String :=
       | "testdir" => (do let _ ← nat; pure "distinct=1 same=1 exist=1 gone=1 par_ok=1 par_db=1 par_same=1 par_distinct=1 par_gone=1 parent_alive=1" : Rd String).run rest
       | "climon" => opCliMon.run rest
       | "libmon" => opLibMon.run rest
-      | "libname" => (do let p ← str; let k ← nat; pure (hx (libDbName p k)) : Rd String).run rest
+      | "libname" => (do let p ← str; let k ← nat; pure ("name " ++ hx (libDbName p k)) : Rd String).run rest
       | "serial" => opSerial.run rest
       | _ => .error s!"unknown op {op}"
     match r with
